@@ -253,6 +253,10 @@ pub struct Checker
     parent: Vec<Option<u8>>,
     /// pool entities whose auto-despawn signal has been dropped: the next garbage collection despawns them
     ent_doomed: HashSet<u8>,
+    /// doomed in the middle of a collection pass: that pass or the next one may take them
+    ent_grace: HashSet<u8>,
+    /// payload id -> pool entity whose auto-despawn signal the payload owns
+    payload_carries: HashMap<u32, u8>,
     /// trace position of the last applied mutation of RA / RB
     last_res_mut: [Option<usize>; 2],
 }
@@ -310,6 +314,8 @@ impl Checker
             last_begun: None,
             parent: Vec::new(),
             ent_doomed: HashSet::new(),
+            ent_grace: HashSet::new(),
+            payload_carries: HashMap::new(),
             last_res_mut: [None, None],
         }
     }
@@ -714,7 +720,7 @@ impl Checker
                 kind = Some(HookKind::Manual);
                 if !self.alive(*s) { self.stale("C18:run_dead_system"); }
             }
-            (Op::SysEvent(_, ty), Resolved::Payload{ id, sys: Some(s) }) =>
+            (Op::SysEvent(_, ty), Resolved::Payload{ id, sys: Some(s), .. }) =>
             {
                 expected = Some(vec![*s]);
                 kind = Some(HookKind::SystemEvent);
@@ -871,6 +877,11 @@ impl Checker
                 }
                 if payload.is_some() && exp.is_empty() { self.rep.classes.hit("C05:zero_listeners"); }
             }
+        }
+        if let Resolved::Payload{ id, carries: Some(e), .. } = resolved
+        {
+            self.payload_carries.insert(*id, *e);
+            self.rep.classes.hit("C05:payload_owning_a_signal");
         }
         if let Some(p) = payload
         {
@@ -1229,6 +1240,25 @@ impl Checker
                     Some(Frame::Runner{ id: fid, .. }) if fid == id => {}
                     other => { self.viol("C09", format!("runner exit for {id} but innermost frame is {:?}", other.map(|f| frame_name(&f)))); }
                 }
+                // C08 / C09 / C02: when the outermost runner call of a tree returns, every removal and despawn that has
+                // happened so far has been polled (each runner call ends with a collection followed by a poll), so the
+                // reactions they cause run inside the tree
+                if !self.frames.iter().any(|f| matches!(f, Frame::Runner{ .. }))
+                {
+                    let mut stuck: Vec<String> = Vec::new();
+                    for c in 0..2 { if self.tracked[c] && !self.pending_removals[c].is_empty() { stuck.push(format!("{} removals of component {c}", self.pending_removals[c].len())); } }
+                    for e in self.dead_unpolled.iter()
+                    {
+                        if self.regs.iter().any(|r| r.in_table && r.in_flight && r.key == Key::Despawn(*e)) { stuck.push(format!("the despawn of entity {e}")); }
+                    }
+                    if !stuck.is_empty()
+                    {
+                        let msg = format!("the outermost system command of the tree returned while {} had not been polled: their reactions do not run inside the tree", stuck.join(", "));
+                        self.viol("C08", msg.clone());
+                        self.viol("C09", msg.clone());
+                        self.viol("C02", msg);
+                    }
+                }
                 // everything that was blocked by this execution has run (or been dropped because its target died)
                 if let Some(run) = self.deliveries.get(&id).and_then(|d| d.run)
                 {
@@ -1310,6 +1340,7 @@ impl Checker
                 late.sort();
                 for e in late
                 {
+                    if self.ent_grace.remove(&e) { continue; }
                     self.ent_doomed.remove(&e);
                     self.viol("C08", format!("pool entity {e} lost its last auto-despawn signal but the next garbage collection did not despawn it (its removal / despawn reactions are overdue)"));
                     self.viol("C07", format!("pool entity {e} lost its last auto-despawn signal but the next garbage collection did not despawn it"));
@@ -1760,6 +1791,16 @@ impl Checker
         if pm.deliveries.len() >= 2 && interrupted { self.rep.classes.hit("C05:multi_reader_with_abort_or_postpone"); }
         if pm.deliveries.len() >= 2 { self.rep.classes.hit("C05:multi_reader"); }
         self.payloads.get_mut(&p).unwrap().dropped = true;
+        // the payload owned an auto-despawn signal: its entity is doomed from now on
+        if let Some(e) = self.payload_carries.get(&p).copied()
+        {
+            if self.ent_alive.get(e as usize).copied().unwrap_or(false)
+            {
+                self.ent_doomed.insert(e);
+                if self.in_gc { self.ent_grace.insert(e); }
+                self.rep.classes.hit("C08:entity_doomed_by_payload_release");
+            }
+        }
     }
 
     fn on_canary_drop(&mut self, s: SysUid)
